@@ -10,6 +10,8 @@ import Proofs.ZoneFileRoundTrip
 import Proofs.ZoneFileOwnerText
 import Proofs.ZoneFileRdataA
 import Proofs.ZoneFileGenerate
+import Proofs.ZoneFileLossless
+import Proofs.ZoneFileCodecLink
 /-!
 # C09 — zones survive write-then-read as text; equivalent zone-file spellings agree
 
@@ -362,6 +364,142 @@ theorem generate_indices (start stop step : Nat) (lhs rhs : List Nat) (lm rm : M
     generateExpansion start stop step lhs rhs lm rm =
       (((List.range (stop + 1 - start)).filter (fun k => k % step = 0)).map fun k =>
         (substIndex lhs lm (start + k), substIndex rhs rm (start + k))) := rfl
+
+/-! ### write-then-read under every lossless style -/
+
+/-- **"writing any zone to master-file text and reading it back yields an equal zone … under every output style that
+does not discard information"**.  `st` is any style; `st' = adjustStyle st …` is the style `Zone.to_styled_file`
+actually uses (it supplies the zone's origin to a generic-syntax style that has none).  Hypotheses:
+`Lossless st'` (TTLs not omitted, first owner of a node printed, owner column not right-justified, `$TTL` value in
+range); the zone — in the order written, with the comments the text carries — is well formed (`ZoneWF`); every record
+is readable (`RecOK`: the name algebra of its owner, the type token, and the RDATA codec behind the C05 interface
+`RdataReads`, for the RDATA text under *this* style: chunking, generic form, trailing comment, padding).
+Conclusion: the text written loads back — given the origin, or, when `$ORIGIN` is emitted and the zone is not empty,
+without it — to exactly that zone.  Every knob is free: `sorted`, `want_origin`, `default_ttl` (any value, 0 included),
+`deduplicate_names`, the four justifications, `want_comments`, `omit_rdclass`, `want_generic`, the name style
+(`origin`/`relativize`) and the RDATA style (chunk sizes and separators). -/
+theorem read_write_lossless (st : Style) (z : ZoneMap) (zo : Name) (rel gfix : Bool) (origin? : Option Name)
+    (owOf : Name → List Nat) (absOf : Name → Name) (rtextOf : RR → List Nat)
+    (hl : Lossless (adjustStyle st (some zo) rel))
+    (horig : origin? = some zo ∨ (origin? = none ∧ (adjustStyle st (some zo) rel).wantOrigin = true ∧
+      writeOrder (adjustStyle st (some zo) rel).sorted z ≠ []))
+    (hotext : (adjustStyle st (some zo) rel).wantOrigin = true →
+      identOK (toText zo) = true ∧ toText zo ≠ [] ∧ fromText (toText zo) none = .ok zo)
+    (hname : ∀ p ∈ writeOrder (adjustStyle st (some zo) rel).sorted z,
+      nameToStyledText (adjustStyle st (some zo) rel).toNameStyle p.1 = .ok (owOf p.1))
+    (htext : ∀ p ∈ writeOrder (adjustStyle st (some zo) rel).sorted z, ∀ rds ∈ p.2, ∀ rr ∈ rds.rrs,
+      recordText (adjustStyle st (some zo) rel) rr.rd = .ok (rtextOf rr))
+    (hwf : ZoneWF (if rel then some [] else some zo)
+      (keptZone (adjustStyle st (some zo) rel) (writeOrder (adjustStyle st (some zo) rel).sorted z)))
+    (hrec : ∀ p ∈ writeOrder (adjustStyle st (some zo) rel).sorted z, ∀ rds ∈ p.2, ∀ x ∈ rds.rrs,
+      RecOK (adjustStyle st (some zo) rel) zo rel gfix (owOf p.1) (absOf p.1) p.1 rds.ttl rds.rdtype x (rtextOf x)) :
+    ∃ text, zoneToText st (some zo) z rel = .ok text ∧
+      zoneFromText text origin? rel false gfix =
+        .ok (keptZone (adjustStyle st (some zo) rel) (writeOrder (adjustStyle st (some zo) rel).sorted z), some zo) := by
+  obtain ⟨hnd, hne⟩ := zoneWF_shape _ _ _ hwf
+  exact ⟨_, zoneToText_spec st zo z rel owOf rtextOf hname hnd hne htext,
+    read_write_lossless_core _ _ zo rel gfix origin? owOf absOf rtextOf hl horig hotext hwf hrec⟩
+
+/-- every single knob of the lossless set, and all of them together, satisfy `Lossless` (the instances of
+`read_write_lossless` the property text enumerates: `$ORIGIN` emission, `$TTL` emission incl. 0, owner de-duplication,
+left justification of the owner and either justification of the other columns, comments, chunking, generic syntax) -/
+theorem lossless_knobs :
+    Lossless { wantOrigin := true } ∧ Lossless { defaultTTL := some 0 } ∧ Lossless { defaultTTL := some 86400 } ∧
+    Lossless { dedup := true } ∧ Lossless { nameJust := -24, ttlJust := 8, classJust := -4, typeJust := 10 } ∧
+    Lossless { wantComments := true } ∧ Lossless { hexChunk := 2, hexSep := [32, 32] } ∧
+    Lossless { wantGeneric := true, genFix := 2 } ∧ Lossless { omitClass := true } ∧ Lossless { sorted := false } ∧
+    Lossless { wantOrigin := true, defaultTTL := some 300, dedup := true, nameJust := -16, ttlJust := -6, classJust := 3,
+               typeJust := -8, wantComments := true, wantGeneric := true, genFix := 2, omitClass := true } := by
+  refine ⟨?_, ?_, ?_, ?_, ?_, ?_, ?_, ?_, ?_, ?_, ?_⟩ <;>
+    exact ⟨rfl, rfl, by decide, by intro v h; simp at h <;> (try subst h) <;> decide⟩
+
+/-! ### concrete RDATA codecs behind the interface `RdataReads`
+
+Each instance is stated for "blanks, the text `to_styled_text` prints, an optional ` ;comment`, newline" — the shape the
+writer produces after the (padded) type column under any lossless style — and for every continuation of the file. -/
+
+/-- A: the address token -/
+theorem rdata_codec_A (b w addr : List Nat) (kc : Option (List Nat)) (co : Option Name) (rel : Bool) (zo : Option Name)
+    (gfix : Bool) (hb : Blank b) (hbn : b ≠ []) (hkc : ∀ t ∈ kc, 10 ∉ t)
+    (hw : identOK w = true) (hne : w ≠ []) (hnot : w ≠ [92, 35]) (hesc : hasEsc w = false)
+    (hval : inetAton (w.flatMap utf8) = some addr) :
+    RdataReads tA (b ++ (w ++ lineEnd kc)) (.a addr) kc co rel zo gfix :=
+  rdataReads_A_gen b w addr kc co rel zo gfix hb hbn hkc hw hne hnot hesc hval
+
+/-- NS / CNAME / PTR: one name, resolved against the current origin exactly as `Tokenizer.as_name` does -/
+theorem rdata_codec_name (ty : Nat) (hty : isName1Type ty = true) (b w : List Nat) (t : Name) (kc : Option (List Nat))
+    (co : Option Name) (rel : Bool) (zo : Option Name) (gfix : Bool)
+    (hb : Blank b) (hbn : b ≠ []) (hkc : ∀ x ∈ kc, 10 ∉ x)
+    (hw : identOK w = true) (hne : w ≠ []) (hnot : w ≠ [92, 35])
+    (hname : (identToken w).asName co rel zo = .ok t) :
+    RdataReads ty (b ++ (w ++ lineEnd kc)) (.name1 t) kc co rel zo gfix :=
+  rdataReads_name1 ty hty b w t kc co rel zo gfix hb hbn hkc hw hne hnot hname
+
+/-- MX: preference (any 16-bit value) and exchange -/
+theorem rdata_codec_MX (b w : List Nat) (p : Nat) (t : Name) (kc : Option (List Nat))
+    (co : Option Name) (rel : Bool) (zo : Option Name) (gfix : Bool)
+    (hb : Blank b) (hbn : b ≠ []) (hkc : ∀ x ∈ kc, 10 ∉ x) (hp : p ≤ 65535)
+    (hw : identOK w = true) (hne : w ≠ []) (hname : (identToken w).asName co rel zo = .ok t) :
+    RdataReads tMX (b ++ (natToDec p ++ (32 :: (w ++ lineEnd kc)))) (.mx p t) kc co rel zo gfix :=
+  rdataReads_MX b w p t kc co rel zo gfix hb hbn hkc hp hw hne hname
+
+/-- SOA: two names, a 32-bit serial and four TTL-valued timers printed in decimal -/
+theorem rdata_codec_SOA (b mt rt : List Nat) (m r : Name) (se rf rtv ex mi : Nat) (kc : Option (List Nat))
+    (co : Option Name) (rel : Bool) (zo : Option Name) (gfix : Bool)
+    (hb : Blank b) (hbn : b ≠ []) (hkc : ∀ x ∈ kc, 10 ∉ x)
+    (hm : identOK mt = true) (hmn : mt ≠ []) (hmk : mt ≠ [92, 35]) (hr : identOK rt = true) (hrn : rt ≠ [])
+    (hmname : (identToken mt).asName co rel zo = .ok m) (hrname : (identToken rt).asName co rel zo = .ok r)
+    (hse : se ≤ 4294967295) (hrf : rf ≤ Consts.maxTTL) (hrt : rtv ≤ Consts.maxTTL) (hex : ex ≤ Consts.maxTTL)
+    (hmi : mi ≤ Consts.maxTTL) :
+    RdataReads tSOA (b ++ soaText mt rt se rf rtv ex mi (lineEnd kc)) (.soa m r se rf rtv ex mi) kc co rel zo gfix :=
+  rdataReads_SOA b mt rt m r se rf rtv ex mi kc co rel zo gfix hb hbn hkc hm hmn hmk hr hrn hmname hrname hse hrf hrt hex hmi
+
+/-- TXT: any non-empty list of character-strings of at most 255 arbitrary octets, quoted and escaped by
+`dns.rdata._escapify`, comes back octet for octet through the tokenizer's quoting mode and `unescape_to_bytes` -/
+theorem rdata_codec_TXT (b : List Nat) (s1 : Bytes) (more : List Bytes) (kc : Option (List Nat))
+    (co : Option Name) (rel : Bool) (zo : Option Name) (gfix : Bool)
+    (hb : Blank b) (hbn : b ≠ []) (hkc : ∀ x ∈ kc, 10 ∉ x)
+    (hs : ∀ s ∈ s1 :: more, (∀ c ∈ s, c < 256) ∧ s.length ≤ 255) :
+    RdataReads tTXT (b ++ (joinWith [32] ((s1 :: more).map txtQuote) ++ lineEnd kc)) (.txt (s1 :: more)) kc co rel zo gfix :=
+  rdataReads_TXT b s1 more kc co rel zo gfix hb hbn hkc hs
+
+/-- "base64/hex chunking", "generic RFC 3597 syntax": the generic form `\# n hex…` of a type without an
+implementation class, under *any* chunk size and any separator made of blanks ("token-safe re-chunking") -/
+theorem rdata_codec_generic (ty : Nat) (hty : isGenericType ty = true) (b : List Nat) (d : Bytes) (hd : ∀ x ∈ d, x < 256)
+    (chunk : Nat) (sep : List Nat) (hsep : SepOK sep) (kc : Option (List Nat)) (hc : ∀ t ∈ kc, 10 ∉ t)
+    (co : Option Name) (rel : Bool) (zo : Option Name) (gfix : Bool) (hb : Blank b) (hbn : b ≠ []) :
+    RdataReads ty (b ++ (genericMarker ++ genericTail d chunk sep (lineEnd kc))) (.generic d) kc co rel zo gfix :=
+  rdataReads_generic ty hty b d hd chunk sep hsep kc hc co rel zo gfix hb hbn
+
+/-- `want_generic` on a known type: the generic text is read back to the rdata whenever the type's wire codec
+round-trips against the reader's origin (the C02 interface), again under any chunking -/
+theorem rdata_codec_generic_known (ty : Nat) (hgen : isGenericType ty = false) (hmod : isModelledType ty = true)
+    (b : List Nat) (d : Bytes) (rd : Rdata) (hd : ∀ x ∈ d, x < 256)
+    (chunk : Nat) (sep : List Nat) (hsep : SepOK sep) (kc : Option (List Nat)) (hc : ∀ t ∈ kc, 10 ∉ t)
+    (co : Option Name) (rel : Bool) (zo : Option Name) (gfix : Bool) (hb : Blank b) (hbn : b ≠ [])
+    (hdec : rdataFromWire ty d (if gfix then wireOrigin co rel zo else co) = some rd)
+    (henc : rdataToWire (if gfix then wireOrigin co rel zo else none) rd = .ok d) :
+    RdataReads ty (b ++ (genericMarker ++ genericTail d chunk sep (lineEnd kc))) rd kc co rel zo gfix :=
+  rdataReads_generic_known ty hgen hmod b d rd hd chunk sep hsep kc hc co rel zo gfix hb hbn hdec henc
+
+/-- the RDATA text of the generic form is exactly what the writer prints for it, and the escape / hex tables used
+above are those of the working tree -/
+theorem codec_tables :
+    RdEscOK ConstsC09.rdataEscaped ∧
+    (∀ d chunk sep, rdataToText { hexChunk := chunk, hexSep := sep } (.generic d) =
+      .ok (genericMarker ++ genericTail d chunk sep [])) := by
+  refine ⟨rdEscOK_generated, ?_⟩
+  intro d chunk sep
+  simp [rdataToText, genericMarker, genericTail, s2l, List.append_assoc]
+
+/-- a codec instance in "blanks, text, line end" form supplies the `rdata` field `read_write_lossless` asks of a record -/
+theorem codec_supplies_record (st : Style) (ty : Nat) (rr : RR) (rtext : List Nat) (co : Option Name) (rel : Bool)
+    (zo : Option Name) (gfix : Bool)
+    (h : RdataReads ty ((padR (typeTok st ty) st.typeJust ++ [32]) ++ (rtext ++ lineEnd (keptComment st rr))) rr.rd
+      (keptComment st rr) co rel zo gfix) :
+    RdataReads ty (padR (typeTok st ty) st.typeJust ++ (32 :: (rtext ++ (extraOf st rr ++ [10])))) rr.rd
+      (keptComment st rr) co rel zo gfix :=
+  recOK_rdata st ty rr rtext co rel zo gfix h
 
 /-! ### D08 — `want_generic` (recorded finding; DESIGN §6)
 
